@@ -24,7 +24,8 @@ CLAIMED = {
         text="sched/Repro.tla models the mechanism - passes visit hash-ordered back-reference sets in an order the environment chooses - and TLC "
              "shows the re-connection step is confluent iff the visits are ordered (the unordered configuration yields TLC's counterexample, "
              "which the check expects). The code is then sampled: design programs (one bundle feeding several ports of one and of several "
-             "instances, implicit signals, generator-made modules, arrays, pairs, hierarchies) run in N fresh interpreters, each with its own "
+             "instances, implicit signals, generator-made modules, chains of parameterised generator calls named from their parameter values "
+             "- with earlier calls in the same process that write equal values differently -, arrays, pairs, hierarchies) run in N fresh interpreters, each with its own "
              "PYTHONHASHSEED, program order and amount of unrelated allocation / elaboration; every serialized package and spice / spectre / "
              "verilog netlist is a single-assignment register across all interpreters, decided by TLC (Trace_Register).",
         note="Exploration of configurations: hash seeds and allocation histories are sampled (8 interpreters quick, 32 thorough), not exhausted; "
@@ -65,8 +66,10 @@ CLAIMED = {
              "instances with reference, parameter names and values, connection ports and targets incl. slices and concatenations, external "
              "modules with port order and spice type, literals) and names the first difference. Every package of the corpus (valid universe "
              "designs, the examples' exported packages, and modules full of primitive / external-module instances with parameter values of "
-             "every class, literals and every spice type) is imported with from_proto and re-exported; TLC (Trace_RoundTrip) compares.",
-        note="Trusted: the uniform projection of both packages in harness/props/c11.py, TLC. The imported modules are re-exported in package order.",
+             "every class, literals and every spice type; every package the repository's own test-suite exports; histories of imports in one "
+             "process declaring one external module name differently) is imported with from_proto and its imported top-level modules "
+             "re-exported; TLC (Trace_RoundTrip) compares.",
+        note="Trusted: the uniform projection of both packages in harness/props/c11.py, TLC. Re-exported are the imported modules no instance of the package refers to, in package order.",
         ref="6 C11", technique="TLA+ structural equality spec (RoundTrip) decided by TLC on recorded package pairs"),
     "C13": dict(
         text="api/Params.tla states how each class of parameter value must appear on the exported instance (None omitted; str / string-valued Enum "
@@ -87,8 +90,12 @@ CLAIMED = {
              "elaboration hooks on: Trace_Elab requires the hook events - every skip/enter decision, logged |done| and pending sets, "
              "children-first order, per-module pass sequences - to be a behaviour of ElabSched, and Trace_Register requires every package and "
              "netlist to be byte-identical across all histories incl. single-call reference histories; new parents of elaborated modules must "
-             "build, additions after elaboration must be refused.",
-        note="Trusted: hook sink and digests (harness/elabtrace.py), driver, TLC. Bounds: 4 shapes, 2 calls (quick) / 3 calls (thorough), top lists "
+             "build (fresh-parent reference histories included), a parent with a bundle of another type must be refused, additions after "
+             "elaboration must be refused. The hook-event streams of the repository's own test-suite (one pytest process per test file, "
+             "~20,000 events) are validated against the scheduler bookkeeping without a known DAG (Trace_ElabSuite). On every run tampered "
+             "copies of accepted traces (a count raised, an event dropped or relabelled, a set truncated) must be rejected by both trace "
+             "specs - otherwise the machinery, not the library, is reported broken.",
+        note="Trusted: hook sinks and digests (harness/elabtrace.py, harness/suite_plugin.py), driver, TLC. Bounds: 4 shapes, 2 calls (quick) / 3 calls (thorough), top lists "
              "of 1-2 modules, entry-point assignments sampled. Id-reuse of freed objects (THE_CACHE keyed by id) is not forced.",
         ref="6 C07", technique="TLA+ state machine (ElabSched) model-checked + TLC-enumerated call histories replayed in fresh processes + hook-trace validation by TLC"),
     "C08": dict(
@@ -139,8 +146,10 @@ CLAIMED = {
              "declared signals, every instance reference resolves to a package module / declared external module / a primitive of the "
              "spec's table, each target port connected exactly once, every connection target inside its signal and of the port's width). "
              "Corpus: packages of the valid universe designs, every package exported by the seven repository examples (captured with the "
-             "export hook), built-in generators over their parameter ranges. TLC (Trace_Pkg) decides; acceptance by from_proto and the "
-             "spice/spectre netlisters is logged and required.",
+             "export hook), every package exported while the repository's own test-suite runs under the hooks (one pytest process per test "
+             "file; PDK-compiled designs included), built-in generators over their parameter ranges, packages returned after a failed "
+             "attempt, same-named external modules in two domains. TLC (Trace_Pkg) decides; acceptance by from_proto and the spice/spectre "
+             "netlisters is logged and required.",
         note="Trusted: protobuf->JSON projector, TLC; netlister acceptance is not demanded of packages with technology-independent "
              "hdl21.primitives devices (vlsirtools refuses those by design). PDK-compiled designs join the corpus through C15.",
         ref="6 C06", technique="TLA+ well-formedness predicate (Package!PkgWF) evaluated by TLC on recorded packages"),
@@ -151,10 +160,13 @@ CLAIMED = {
              "reference chains/fans/cycles, shared/named no-connects, bundles/sub-bundles/anonymous bundles incl. dict shorthand, arrays "
              "broadcast/per-element, Pair, 3-level hierarchies with sharing; every net observable through probe leaves) are built with the "
              "real API in several construction styles and exported; TLC (Trace_Conn) classifies each design and requires "
-             "PkgDenote(package) = Denote(source) and equal leaf tables.",
-        note="Trusted: harness/design.py (builder + package projector), harness/universe.py (enumeration), TLC. The netlister reading "
-             "(slice bot..top, concat parts MSB-first) is an explicit assumption. Valid designs the library rejects are counted, not "
-             "violations. Bounds: widths <= 6, <= 4 instances per module, depth <= 3; quick samples the larger universes.",
+             "PkgDenote(package) = Denote(source), equal leaf tables and equal leaf parameter values. Type-directed random hierarchical "
+             "designs (U_rand) extend the universes. Every 3rd (thorough: every) exported design is also netlisted in SPICE format and the "
+             "text read back by position (core/Netlist.tla): it must describe the same circuit as the package.",
+        note="Trusted: harness/design.py (builder + package projector), harness/universe.py (enumeration), the lexical SPICE reader in "
+             "harness/props/conn.py, TLC. The netlister reading (slice bot..top, concat parts MSB-first) assumed by PkgDenote is checked on "
+             "every run against real netlists. Valid designs the library rejects are counted, not violations. Bounds: widths <= 6, <= 4 "
+             "instances per module, depth <= 3; quick samples the larger universes; random designs 300 quick / 12,000 thorough.",
         ref="6 C01", technique="TLA+ denotational specs (Design/Package/Valid) + TLC batch validation of exported packages"),
     "C02": dict(
         text="Valid!FaultClauses names, per design, every violated well-formedness rule; a design with a fault C02 lists must make "
